@@ -8,6 +8,17 @@
 //   U rows cols seed n           UniformDispersalKernel(rows, cols)   -> uni
 //   UF which rows cols seed n    uniform kernel through the factory   -> uni
 //   F which hex stochastic       class chosen by the factory          -> fac
+// real kernels, SwitchDispersalKernel and the mix built from them (LAND = rows cols ew ns edges, edges =
+// r:c-r:c,... one network edge per pair of node cells or `-` for the null network; CELLS = r:c ...):
+//   SW type flag movement LAND seed CELLS      hand-built SwitchDispersalKernel, flag 0|1|d (d = default
+//                                 argument): eligibility, member kernel that produced the result -> sw<i>
+//   SS type                      supports_kernel of the switch kernel and of the five classes -> sup
+//   KE movement LAND CELLS       is_cell_eligible of the five real kernel classes -> ke<i>
+//   FE which hex stochastic movement LAND CELLS   class and eligibility of the factory-built wrapper -> fe, fe<i>
+//   MX route use pk uk bern type flag natkind movement LAND seed CELLS
+//                                 NaturalAnthropogenicDispersalKernel of real kernels, route hand (two
+//                                 SwitchDispersalKernels) or cfg (create_dynamic_kernel) -> mx<i>
+//   (swraw<i>, mxraw<i>: the raw observations the identification is derived from; not compared with the model)
 // impl-only (evaluated by the monitor, not compared with the model):
 //   G dir ew ns kname scale shape seed n          kappa = 1e6 geometry -> geo
 //   GF nat|ant dir ew ns kname scale shape seed n    the same through the factory -> geo
@@ -25,10 +36,16 @@
 #include <pops/natural_kernel.hpp>
 #include <pops/anthropogenic_kernel.hpp>
 #include <pops/network.hpp>
+#include <pops/network_kernel.hpp>
+#include <pops/deterministic_kernel.hpp>
+#include <pops/switch_kernel.hpp>
+#include <pops/kernel_base.hpp>
+#include <pops/kernel.hpp>
 #include <pops/config.hpp>
 #include "hcommon.hpp"
 
 #include <algorithm>
+#include <array>
 #include <cmath>
 #include <cstdint>
 #include <memory>
@@ -264,6 +281,479 @@ static std::unique_ptr<KernelInterface<Gen>> factory_radial(
     if (nat)
         return create_natural_kernel<Gen, Raster<int>, int>(config, dispersers);
     return create_anthro_kernel<Gen, Raster<int>, int>(config, dispersers, network);
+}
+
+
+// ======================================================================
+// real kernels, SwitchDispersalKernel, mix of real kernels
+// ======================================================================
+// Counting generator: an optional scripted first value (so that the outcome of
+// the first draw - the mix's Bernoulli - is controlled), then mt19937_64.
+struct CountingURBG
+{
+    using result_type = std::uint64_t;
+    std::mt19937_64 rest;
+    bool scripted = false;
+    std::uint64_t first = 0;
+    long calls = 0;
+    CountingURBG() = default;
+    explicit CountingURBG(std::uint64_t seed) : rest(seed) {}
+    static constexpr result_type min() { return 0; }
+    static constexpr result_type max() { return ~std::uint64_t(0); }
+    result_type operator()()
+    {
+        calls++;
+        if (scripted && calls == 1)
+            return first;
+        return rest();
+    }
+};
+struct CountingStreams
+{
+    CountingURBG nat, ant;
+    CountingURBG& natural_dispersal() { return nat; }
+    CountingURBG& anthropogenic_dispersal() { return ant; }
+};
+
+static DispersalKernelType enum_of(const std::string& t)
+{
+    static const char* names[] = {"Cauchy", "Exponential", "Uniform", "DeterministicNeighbor", "PowerLaw",
+                                  "HyperbolicSecant", "Gamma", "ExponentialPower", "Weibull", "Normal",
+                                  "LogNormal", "Logistic", "Network", "None"};
+    static const DispersalKernelType values[] = {
+        DispersalKernelType::Cauchy, DispersalKernelType::Exponential, DispersalKernelType::Uniform,
+        DispersalKernelType::DeterministicNeighbor, DispersalKernelType::PowerLaw,
+        DispersalKernelType::HyperbolicSecant, DispersalKernelType::Gamma,
+        DispersalKernelType::ExponentialPower, DispersalKernelType::Weibull, DispersalKernelType::Normal,
+        DispersalKernelType::LogNormal, DispersalKernelType::Logistic, DispersalKernelType::Network,
+        DispersalKernelType::None};
+    for (int i = 0; i < 14; i++)
+        if (t == names[i])
+            return values[i];
+    throw std::runtime_error("harness: enumerator token " + t);
+}
+// the library's spelling of an enumerator (for Config)
+static std::string config_name_of(const std::string& t)
+{
+    if (t == "DeterministicNeighbor") return "deterministic neighbor";
+    if (t == "PowerLaw") return "power-law";
+    if (t == "HyperbolicSecant") return "hyperbolic-secant";
+    if (t == "ExponentialPower") return "exponential-power";
+    if (t == "LogNormal") return "log-normal";
+    std::string s = t;
+    s[0] = (char)std::tolower(s[0]);
+    return s;
+}
+
+typedef std::pair<int, int> Cell;
+static Cell cell_of(const std::string& t)
+{
+    size_t p = t.find(':');
+    if (p == std::string::npos)
+        throw std::runtime_error("harness: cell token " + t);
+    return Cell(std::stoi(t.substr(0, p)), std::stoi(t.substr(p + 1)));
+}
+static std::string scell(int r, int c)
+{
+    return std::to_string(r) + ":" + std::to_string(c);
+}
+
+// rows cols ew ns edges: raster of dispersers and a network loaded from text with
+// one two-point segment per edge, node coordinates at the cell centres
+struct Land
+{
+    int rows, cols;
+    double ew, ns;
+    std::vector<std::pair<Cell, Cell>> edges;
+    Raster<int> dispersers;
+    std::unique_ptr<Network<int>> net;
+    std::string text;
+    bool node_at(int r, int c) const
+    {
+        for (const auto& e : edges)
+            if (e.first == Cell(r, c) || e.second == Cell(r, c))
+                return true;
+        return false;
+    }
+};
+static std::unique_ptr<Land> make_land(const std::vector<std::string>& t, size_t o)
+{
+    std::unique_ptr<Land> l(new Land());
+    l->rows = std::stoi(t.at(o));
+    l->cols = std::stoi(t.at(o + 1));
+    l->ew = std::stod(t.at(o + 2));
+    l->ns = std::stod(t.at(o + 3));
+    l->dispersers = Raster<int>(l->rows, l->cols, 5);
+    const std::string& es = t.at(o + 4);
+    if (es == "-") {
+        l->net.reset(new Network<int>(Network<int>::null_network()));
+        return l;
+    }
+    size_t p = 0;
+    while (p < es.size()) {
+        size_t q = es.find(',', p);
+        if (q == std::string::npos)
+            q = es.size();
+        std::string e = es.substr(p, q - p);
+        size_t d = e.find('-');
+        l->edges.emplace_back(cell_of(e.substr(0, d)), cell_of(e.substr(d + 1)));
+        p = q + 1;
+    }
+    BBox<double> bbox;
+    bbox.north = l->rows * l->ns;
+    bbox.south = 0;
+    bbox.east = l->cols * l->ew;
+    bbox.west = 0;
+    l->net.reset(new Network<int>(bbox, l->ew, l->ns));
+    char buf[400];
+    int id = 1;
+    for (const auto& e : l->edges) {
+        std::snprintf(buf, sizeof buf, "%d,%d,%.17g;%.17g;%.17g;%.17g\n", id, id + 1,
+                      (e.first.second + 0.5) * l->ew, bbox.north - (e.first.first + 0.5) * l->ns,
+                      (e.second.second + 0.5) * l->ew, bbox.north - (e.second.first + 0.5) * l->ns);
+        l->text += buf;
+        id += 2;
+    }
+    std::stringstream stream(l->text);
+    l->net->load(stream);
+    return l;
+}
+
+typedef SwitchDispersalKernel<Raster<int>, int> SwitchK;
+static NetworkDispersalKernel<int> network_member(const Land& l, const std::string& movement)
+{
+    if (movement == "teleport")
+        return NetworkDispersalKernel<int>(*l.net);
+    // walking distances shorter than one cell: the trip ends inside the first segment
+    return NetworkDispersalKernel<int>(*l.net, 0.0, 0.25 * std::min(l.ew, l.ns), movement == "jump");
+}
+// member kernels of a hand-built switch kernel; their own parameters do not depend
+// on the switch kernel's type, so every type and flag can be called
+struct Members
+{
+    RadialDispersalKernel<Raster<int>> radial;
+    DeterministicDispersalKernel<Raster<int>> deterministic;
+    UniformDispersalKernel uniform;
+    DeterministicNeighborDispersalKernel neighbor;
+    NetworkDispersalKernel<int> network;
+    Members(const Land& l, const std::string& movement, Direction nb, DispersalKernelType radial_type, Direction rd, double kappa)
+        : radial(l.ew, l.ns, radial_type, 4 * std::max(l.ew, l.ns), rd, kappa, 1.0),
+          deterministic(DispersalKernelType::Cauchy, l.dispersers, 0.9, l.ew, l.ns, std::min(l.ew, l.ns), 1.0),
+          uniform(l.rows, l.cols),
+          neighbor(nb),
+          network(network_member(l, movement))
+    {}
+    SwitchK make(DispersalKernelType type, const std::string& flag) const
+    {
+        if (flag == "d")
+            return SwitchK(type, radial, deterministic, uniform, network, neighbor);
+        return SwitchK(type, radial, deterministic, uniform, network, neighbor, flag == "1");
+    }
+};
+
+// what one kernel call did: result or exception, and generator calls
+struct Obs
+{
+    bool threw = false;
+    std::string what;  // exception name or r:c
+    long calls = 0;
+    bool operator==(const Obs& o) const { return threw == o.threw && what == o.what && calls == o.calls; }
+};
+template<typename K, typename G>
+static Obs observe(K& kernel, G& g, long& counter, int r, int c)
+{
+    Obs o;
+    std::string s = guarded([&] {
+        int row, col;
+        std::tie(row, col) = kernel(g, r, c);
+        return scell(row, col);
+    });
+    o.threw = s.compare(0, 4, "err:") == 0;
+    o.what = s;
+    o.calls = counter;
+    return o;
+}
+static std::string sobs(const Obs& o)
+{
+    return o.what + "/" + std::to_string(o.calls);
+}
+
+template<typename G>
+static const char* class_of_g(KernelInterface<G>* k)
+{
+    if (dynamic_cast<DynamicWrapperKernel<UniformDispersalKernel, G>*>(k)) return "uniform";
+    if (dynamic_cast<DynamicWrapperKernel<DeterministicNeighborDispersalKernel, G>*>(k)) return "neighbor";
+    if (dynamic_cast<DynamicWrapperKernel<NetworkDispersalKernel<int>, G>*>(k)) return "network";
+    if (dynamic_cast<DynamicWrapperKernel<DeterministicDispersalKernel<Raster<int>>, G>*>(k)) return "deterministic";
+    if (dynamic_cast<DynamicWrapperKernel<RadialDispersalKernel<Raster<int>>, G>*>(k)) return "radial";
+    return "other";
+}
+
+static const char* DIR_TOKENS[8] = {"NW", "N", "NE", "E", "SE", "S", "SW", "W"};
+static const int DIR_OFF[8][2] = {{-1, -1}, {-1, 0}, {-1, 1}, {0, 1}, {1, 1}, {1, 0}, {1, -1}, {0, -1}};
+
+static Config land_config(const Land& l, const std::string& movement)
+{
+    Config config;
+    config.rows = l.rows;
+    config.cols = l.cols;
+    config.ew_res = l.ew;
+    config.ns_res = l.ns;
+    config.shape = 1.0;
+    config.natural_scale = 2 * std::max(l.ew, l.ns);
+    config.anthro_scale = 2.0;
+    config.natural_kappa = 0;
+    config.anthro_kappa = 0;
+    config.natural_direction = "";
+    config.anthro_direction = "SE";
+    config.dispersal_percentage = 0.9;
+    config.network_movement = movement;
+    config.network_min_distance = 0.0;
+    config.network_max_distance = 0.25 * std::min(l.ew, l.ns);
+    return config;
+}
+
+// the mix with its protected anthropogenic kernel made visible
+template<typename Mix>
+struct OpenMix : public Mix
+{
+    explicit OpenMix(Mix&& m) : Mix(std::move(m)) {}
+    bool anthropogenic_eligible(int r, int c) { return this->anthropogenic_kernel_->is_cell_eligible(r, c); }
+};
+
+// One mix call at (r, c) compared with the natural kernel alone and the
+// anthropogenic kernel alone (after 0 and after 1 draw on its stream), all from
+// the same generator states: the kernel that was run and the number of
+// Bernoulli draws are the unique explanation of (result, calls on each stream).
+struct MixRun
+{
+    std::string line, raw;
+};
+template<typename MakeMix, typename MakeNat, typename MakeAnt>
+static MixRun mix_at(int r, int c, std::uint64_t seed, std::uint64_t first, MakeMix make_mix, MakeNat make_nat, MakeAnt make_ant,
+                     bool natural_is_neighbor)
+{
+    auto fresh = [&](CountingStreams& g) {
+        g.nat = CountingURBG(seed);
+        g.ant = CountingURBG(seed + 7919);
+        g.ant.scripted = true;
+        g.ant.first = first;
+    };
+    // anthropogenic kernel alone, after k draws on its stream
+    Obs alone[2];
+    for (int k = 0; k < 2; k++) {
+        CountingStreams g;
+        fresh(g);
+        for (int j = 0; j < k; j++)
+            g.ant();
+        auto ant = make_ant();
+        alone[k] = observe(*ant, g.ant, g.ant.calls, r, c);
+    }
+    // natural kernel: when it is a neighbour kernel, the first direction whose
+    // target cell differs from what the anthropogenic kernel alone returns
+    int nd = 0;
+    if (natural_is_neighbor)
+        for (nd = 0; nd < 7; nd++) {
+            std::string tgt = scell(r + DIR_OFF[nd][0], c + DIR_OFF[nd][1]);
+            if (tgt != alone[0].what && tgt != alone[1].what)
+                break;
+        }
+    Obs nat_alone;
+    {
+        CountingStreams g;
+        fresh(g);
+        auto nat = make_nat(nd);
+        nat_alone = observe(*nat, g.nat, g.nat.calls, r, c);
+    }
+    CountingStreams g;
+    fresh(g);
+    auto mix = make_mix(nd);
+    bool elig = mix->anthropogenic_eligible(r, c);
+    long dummy = 0;
+    Obs run = observe(*mix, g, dummy, r, c);
+    long A = g.ant.calls, N = g.nat.calls;
+    std::vector<std::string> expl;
+    for (int b = 0; b < 2; b++)
+        if (run.threw == nat_alone.threw && run.what == nat_alone.what && N == nat_alone.calls && A == b)
+            expl.push_back(std::string("natural bdraws=") + std::to_string(b));
+    for (int k = 0; k < 2; k++)
+        if (run.threw == alone[k].threw && run.what == alone[k].what && A == alone[k].calls && N == 0)
+            expl.push_back(std::string("anthropogenic bdraws=") + std::to_string(k));
+    std::string choice;
+    if (expl.size() == 1)
+        choice = expl[0];
+    else if (expl.empty())
+        choice = "unexplained bdraws=?";
+    else {
+        choice = "ambiguous";
+        for (const auto& e : expl)
+            choice += "|" + e.substr(0, e.find(' ')) + e.substr(e.find('=') + 1);
+        choice += " bdraws=?";
+    }
+    MixRun out;
+    out.line = std::string("elig=") + (elig ? "1" : "0") + " choice=" + choice + " exc=" + (run.threw ? "1" : "0");
+    out.raw = "cell=" + scell(r, c) + " result=" + run.what + " ant_calls=" + std::to_string(A) + " nat_calls=" + std::to_string(N)
+              + " natural_alone=" + sobs(nat_alone) + " anthropogenic_alone0=" + sobs(alone[0]) + " anthropogenic_alone1="
+              + sobs(alone[1]) + " natural_direction=" + (natural_is_neighbor ? DIR_TOKENS[nd] : "-");
+    return out;
+}
+
+static void real_kernel_case(int k, const std::vector<std::string>& t)
+{
+    const std::string& c = t[0];
+    if (c == "SS") {
+        DispersalKernelType ty = enum_of(t.at(1));
+        std::printf("%d sup switch=%d radial=%d deterministic=%d uniform=%d neighbor=%d network=%d\n", k,
+                    (int)SwitchK::supports_kernel(ty), (int)RadialDispersalKernel<Raster<int>>::supports_kernel(ty),
+                    (int)DeterministicDispersalKernel<Raster<int>>::supports_kernel(ty),
+                    (int)UniformDispersalKernel::supports_kernel(ty),
+                    (int)DeterministicNeighborDispersalKernel::supports_kernel(ty),
+                    (int)NetworkDispersalKernel<int>::supports_kernel(ty));
+        return;
+    }
+    if (c == "SW") {
+        // SW type flag movement rows cols ew ns edges seed cells...
+        DispersalKernelType ty = enum_of(t.at(1));
+        const std::string& flag = t.at(2);
+        std::unique_ptr<Land> land = make_land(t, 4);
+        std::uint64_t seed = std::stoull(t.at(9));
+        for (size_t j = 10; j < t.size(); j++) {
+            Cell cell = cell_of(t[j]);
+            int r = cell.first, cc = cell.second;
+            // fresh kernels for every cell (the deterministic kernel keeps state between calls)
+            Members m(*land, t.at(3), Direction::SE, DispersalKernelType::Exponential, Direction::N, 2.0);
+            SwitchK sw = m.make(ty, flag);
+            bool elig = sw.is_cell_eligible(r, cc);
+            CountingURBG g(seed);
+            Obs run = observe(sw, g, g.calls, r, cc);
+            Members a(*land, t.at(3), Direction::SE, DispersalKernelType::Exponential, Direction::N, 2.0);
+            Obs alone[5];
+            CountingURBG g0(seed), g1(seed), g2(seed), g3(seed), g4(seed);
+            alone[0] = observe(a.uniform, g0, g0.calls, r, cc);
+            alone[1] = observe(a.neighbor, g1, g1.calls, r, cc);
+            alone[2] = observe(a.network, g2, g2.calls, r, cc);
+            alone[3] = observe(a.deterministic, g3, g3.calls, r, cc);
+            alone[4] = observe(a.radial, g4, g4.calls, r, cc);
+            static const char* names[5] = {"uniform", "neighbor", "network", "deterministic", "radial"};
+            std::string member, raw;
+            int n = 0;
+            for (int q = 0; q < 5; q++) {
+                if (run == alone[q]) {
+                    member += (n ? "+" : "") + std::string(names[q]);
+                    n++;
+                }
+                raw += std::string(" ") + names[q] + "=" + sobs(alone[q]);
+            }
+            if (n == 0)
+                member = "none";
+            else if (n > 1)
+                member = "ambiguous:" + member;
+            int i = (int)(j - 10);
+            std::printf("%d sw%d elig=%d member=%s exc=%d\n", k, i, (int)elig, member.c_str(), (int)run.threw);
+            std::printf("%d swraw%d cell=%s result=%s%s\n", k, i, scell(r, cc).c_str(), sobs(run).c_str(), raw.c_str());
+        }
+        return;
+    }
+    if (c == "KE") {
+        // KE movement rows cols ew ns edges cells...
+        std::unique_ptr<Land> land = make_land(t, 2);
+        Members m(*land, t.at(1), Direction::SE, DispersalKernelType::Exponential, Direction::None, 0.0);
+        for (size_t j = 7; j < t.size(); j++) {
+            Cell cell = cell_of(t[j]);
+            int r = cell.first, cc = cell.second;
+            std::printf("%d ke%d radial=%d deterministic=%d uniform=%d neighbor=%d network=%d\n", k, (int)(j - 7),
+                        (int)m.radial.is_cell_eligible(r, cc), (int)m.deterministic.is_cell_eligible(r, cc),
+                        (int)m.uniform.is_cell_eligible(r, cc), (int)m.neighbor.is_cell_eligible(r, cc),
+                        (int)m.network.is_cell_eligible(r, cc));
+        }
+        return;
+    }
+    if (c == "FE") {
+        // FE which hex stochastic movement rows cols ew ns edges cells...
+        std::unique_ptr<Land> land = make_land(t, 5);
+        Config config = land_config(*land, t.at(4));
+        std::string name = unhex(t.at(2));
+        config.natural_kernel_type = name;
+        config.anthro_kernel_type = name;
+        config.natural_direction = "SE";
+        config.dispersal_stochasticity = t.at(3) == "1";
+        std::unique_ptr<KernelInterface<Gen>> kernel;
+        std::string r0 = guarded([&] {
+            kernel = t.at(1) == "nat" ? create_natural_kernel<Gen, Raster<int>, int>(config, land->dispersers)
+                                      : create_anthro_kernel<Gen, Raster<int>, int>(config, land->dispersers, *land->net);
+            return std::string(class_of_g<Gen>(kernel.get()));
+        });
+        std::printf("%d fe class=%s\n", k, r0.c_str());
+        if (!kernel)
+            return;
+        for (size_t j = 10; j < t.size(); j++) {
+            Cell cell = cell_of(t[j]);
+            std::printf("%d fe%d elig=%d\n", k, (int)(j - 10), (int)kernel->is_cell_eligible(cell.first, cell.second));
+        }
+        return;
+    }
+    if (c == "MX") {
+        // MX route use pk uk bern type flag natkind movement rows cols ew ns edges seed cells...
+        const std::string& route = t.at(1);
+        bool use = t.at(2) == "1";
+        double p = std::stoi(t.at(3)) / 16.0;
+        std::uint64_t first = (2 * (std::uint64_t)std::stoi(t.at(4)) + 1) << 59;  // u = (2*uk+1)/32
+        const std::string& tyname = t.at(6);
+        DispersalKernelType ty = enum_of(tyname);
+        const std::string& flag = t.at(7);
+        bool nat_neighbor = t.at(8) == "neighbor";
+        const std::string& movement = t.at(9);
+        std::unique_ptr<Land> land = make_land(t, 10);
+        std::uint64_t seed = std::stoull(t.at(15));
+        for (size_t j = 16; j < t.size(); j++) {
+            Cell cell = cell_of(t[j]);
+            MixRun res;
+            if (route == "hand") {
+                typedef NaturalAnthropogenicDispersalKernel<SwitchK, SwitchK> Mix;
+                auto make_nat = [&](int nd) {
+                    Members m(*land, movement, dir_of(DIR_TOKENS[nd]), DispersalKernelType::Exponential, Direction::None, 0.0);
+                    return std::unique_ptr<SwitchK>(new SwitchK(
+                        m.make(nat_neighbor ? DispersalKernelType::DeterministicNeighbor : DispersalKernelType::Exponential, "1")));
+                };
+                auto make_ant = [&]() {
+                    Members m(*land, movement, Direction::SE, DispersalKernelType::Exponential, Direction::N, 2.0);
+                    return std::unique_ptr<SwitchK>(new SwitchK(m.make(ty, flag)));
+                };
+                auto make_mix = [&](int nd) {
+                    return std::unique_ptr<OpenMix<Mix>>(new OpenMix<Mix>(Mix(make_nat(nd), make_ant(), use, p)));
+                };
+                res = mix_at(cell.first, cell.second, seed, first, make_mix, make_nat, make_ant, nat_neighbor);
+            }
+            else {
+                typedef DispersalKernel<CountingURBG> Mix;
+                auto config_for = [&](int nd) {
+                    Config config = land_config(*land, movement);
+                    config.natural_kernel_type = nat_neighbor ? "deterministic neighbor" : "exponential";
+                    config.natural_direction = nat_neighbor ? DIR_TOKENS[nd] : "";
+                    config.anthro_kernel_type = config_name_of(tyname);
+                    config.dispersal_stochasticity = flag == "1";
+                    config.use_anthropogenic_kernel = use;
+                    config.percent_natural_dispersal = p;
+                    return config;
+                };
+                auto make_nat = [&](int nd) {
+                    return create_natural_kernel<CountingURBG, Raster<int>, int>(config_for(nd), land->dispersers);
+                };
+                auto make_ant = [&]() {
+                    return create_anthro_kernel<CountingURBG, Raster<int>, int>(config_for(0), land->dispersers, *land->net);
+                };
+                auto make_mix = [&](int nd) {
+                    return std::unique_ptr<OpenMix<Mix>>(new OpenMix<Mix>(
+                        create_dynamic_kernel<CountingURBG, Raster<int>, int>(config_for(nd), land->dispersers, *land->net)));
+                };
+                res = mix_at(cell.first, cell.second, seed, first, make_mix, make_nat, make_ant, nat_neighbor);
+            }
+            int i = (int)(j - 16);
+            std::printf("%d mx%d %s\n", k, i, res.line.c_str());
+            std::printf("%d mxraw%d %s\n", k, i, res.raw.c_str());
+        }
+        return;
+    }
 }
 
 int main(int argc, char** argv)
@@ -551,6 +1041,15 @@ int main(int argc, char** argv)
                 return std::string(buf);
             });
             std::printf("%d ks %s\n", k, r.c_str());
+        }
+        else if (c == "SW" || c == "SS" || c == "KE" || c == "FE" || c == "MX") {
+            // a failure while setting a case up (not inside a kernel call) is reported as such
+            try {
+                real_kernel_case(k, t);
+            }
+            catch (const std::exception& e) {
+                std::printf("%d setup_failed %s\n", k, e.what());
+            }
         }
         else {
             std::printf("%d unknown_case\n", k);
